@@ -158,8 +158,14 @@ class RefineChecker:
             res = {"init": True}
         mutating = any(k in res for k in ("appends", "deletes", "expire", "delete_snapshot", "set_prop", "init", "file_op"))
         if N.version is not None:
-            if not mutating and P is not None and N.pointer == P.pointer:
-                self.w.sim.probe("pointer_rewritten_same_target")      # e.g. a repair of a lost pointer: no commit
+            if P is not None and N.pointer == P.pointer:
+                # the pointer is (re)written naming the very file that already is the current version: a restore of a
+                # lost pointer, never a commit (a commit always names a brand-new metadata file) - whoever performs it,
+                # an opener or a committer that restores the pointer before it commits
+                self.w.sim.probe("pointer_rewritten_same_target")
+                flip["restore"] = True
+                if rec is not None and flip["n"] in rec.get("flips", []):
+                    rec["flips"].remove(flip["n"])
                 return
             if not mutating and N.version < self.max_version:
                 self.problems.append({"clause": "R.pointer_regressed", "flip": flip["n"],
